@@ -67,7 +67,7 @@ def make_schema():
     return schema
 
 
-def build_world_schema(deferred=None, error_lifetime="request"):
+def build_world_schema(deferred=None, error_lifetime="request", shared_fields=False):
     """Schema built in code so that the enum has internal values and the scalar a custom serialiser.
     deferred = "async": every resolver is a coroutine function that yields to the event loop a request-specific number of times
     (ctx["delays"]: seeded per request), so that sibling / list-item resolvers finish in varying orders."""
@@ -117,6 +117,27 @@ def build_world_schema(deferred=None, error_lifetime="request"):
                 return r(root, ctx, info)
             return ar
         return r
+    if shared_fields:
+        # the interface fields a and o are declared ONCE and the same Field objects are listed by I, Obj and Obj2; they have no
+        # resolver of their own: each object type serves them through its type-level default resolver, which refuses roots of
+        # the other type (a resolver looked up for one parent type must never serve another)
+        fa, fo = Field("a", Int), Field("o", lambda: reg["Obj"])
+
+        def dres(tname):
+            def by_type(root, ctx, info):
+                if not isinstance(root, dict) or root.get("__t") != tname:
+                    raise RuntimeError("default resolver of %s used for a value of type %r" % (tname, root.get("__t") if isinstance(root, dict) else root))
+                return res(info.field_definition.name)(root, ctx, info)
+            return by_type
+        I = InterfaceType("I", [fa, fo])
+        reg["Obj"] = ObjectType("Obj", lambda: [fa, Field("s", NonNullType(String), resolver=res("s")), Field("e", E, resolver=res("e")), fo],
+                                interfaces=[I], default_resolver=dres("Obj"))
+        reg["Obj2"] = ObjectType("Obj2", lambda: [fa, Field("n", String, resolver=res("n")), fo], interfaces=[I], default_resolver=dres("Obj2"))
+        U = UnionType("U", [reg["Obj"], reg["Obj2"]])
+        Q = ObjectType("Query", [Field("a", Int, resolver=res("a")), Field("s", NonNullType(String), resolver=res("s")),
+                                 Field("e", E, resolver=res("e")), Field("c", Cust, resolver=res("c")), Field("o", reg["Obj"], resolver=res("o")),
+                                 Field("i", I, resolver=res("i")), Field("u", U, resolver=res("u")), Field("os", ListType(reg["Obj"]), resolver=res("os")), Field("is", ListType(I), resolver=res("is"))])
+        return Schema(Q, types=[reg["Obj"], reg["Obj2"], U, I])
     I = InterfaceType("I", lambda: [Field("a", Int), Field("o", reg["Obj"])])
     reg["Obj"] = ObjectType("Obj", lambda: [Field("a", Int, resolver=res("a")), Field("s", NonNullType(String), resolver=res("s")),
                                              Field("e", E, resolver=res("e")), Field("o", reg["Obj"], resolver=res("o"))], interfaces=[I])
@@ -185,6 +206,7 @@ def _worker(args):
     from py_gql import graphql_blocking, process_graphql_query
     rng = random.Random(seed)
     shared = build_world_schema(error_lifetime="schema")
+    shared_fields = build_world_schema(shared_fields=True)
     out = {}
     n = 0
     cases = []
@@ -204,8 +226,8 @@ def _worker(args):
         xdata = conv_data(b["r"]["data"])
         xerrs = sorted((tuple(p) for p in b["r"]["errs"]), key=repr)
         fresh_dicts = {}
-        for schema_kind in ("fresh", "long-lived"):
-            schema = build_world_schema() if schema_kind == "fresh" else shared
+        for schema_kind in ("fresh", "long-lived", "shared-field-objects"):
+            schema = build_world_schema() if schema_kind == "fresh" else shared if schema_kind == "long-lived" else shared_fields
             for exe in ("optimised", "generic"):
                 n += 1
                 wit = {"query": q, "variables": variables, "world": w, "executor": exe, "schema": schema_kind}
@@ -227,7 +249,7 @@ def _worker(args):
                 dicts = sorted((json.dumps(e.to_dict(), sort_keys=True, default=str) for e in res.errors))
                 if schema_kind == "fresh":
                     fresh_dicts[exe] = dicts
-                else:
+                elif schema_kind == "long-lived":
                     if exe in fresh_dicts and dicts != fresh_dicts[exe]:
                         out.setdefault("exec/error-entries-depend-on-history/%s" % exe, ["the errors (message, locations, path) a long-lived schema reports differ from "
                                        "those of a fresh schema for the same request", dict(wit, fresh=fresh_dicts[exe][:4], long_lived=dicts[:4])])
